@@ -1,6 +1,6 @@
 #!/bin/sh
 # usage: tools/try_patch.sh <patch.diff> <prop> [<prop> ...] : applies the patch to /repo, runs the quick checks, reverts
-P="$1"; shift
+P="$(realpath "$1")"; shift
 git -C /repo apply "$P" || exit 2
 for prop in "$@"; do
   (cd /verif && ./check "$prop" --tier quick 2>&1 | tail -3)
